@@ -430,6 +430,15 @@ def _verify_one(args):
                            time.time() - t0, P.where(qual), f"outside the supported subset: {e}")]
     except core.CheckerError as e:
         return ("error", str(e))
+    except RecursionError as e:
+        return [Obligation(qual.split("fggs.", 1)[-1] + ".in_subset", qual, "vc", UNDECIDED, "pyvc",
+                           time.time() - t0, P.where(qual), f"outside the supported subset: recursion limit of the executor ({e})")]
+    except Exception as e:      # the executor met a construct it mishandles: undecided, never a violation
+        import traceback
+        tb = traceback.extract_tb(e.__traceback__)[-1]
+        return [Obligation(qual.split("fggs.", 1)[-1] + ".in_subset", qual, "vc", UNDECIDED, "pyvc",
+                           time.time() - t0, P.where(qual),
+                           f"outside the supported subset: executor exception {type(e).__name__}: {e} ({tb.filename.split('/')[-1]}:{tb.lineno})")]
     if not vcs:
         return ("error", f"{qual}: zero verification conditions generated")
     # vacuity guards: the precondition (with the type invariants) must not be contradictory, and at
